@@ -94,18 +94,22 @@ class ParserState:
             while True:
                 matched = False
 
+                # A failed attempt may have consumed input; always rewind it.
                 if whitespace_rule:
-                    matched = whitespace_rule.parse(self, children)
-                    if matched:
+                    self.checkpoint()
+                    if whitespace_rule.parse(self, children):
+                        matched = True
                         some = True
                         pairs.extend(children)
-                        # continue
+                        self.ok()
+                    else:
+                        self.restore()
                     children.clear()
 
                 if comment_rule:
                     self.checkpoint()
-                    matched = comment_rule.parse(self, children) or matched
-                    if matched:
+                    if comment_rule.parse(self, children):
+                        matched = True
                         some = True
                         pairs.extend(children)
                         self.ok()
